@@ -40,6 +40,37 @@ theorem isolation {σ op out : Type} (S : System σ op out) (st : Nat → σ) (s
     OEM payload descriptors, which the library documents as not safe for concurrent use -/
 theorem no_shared_writes : Bmc.Gen.Facts.globalWriters = ["ipmi.RegisterOEMPayloadDescriptor"] := by decide
 
+/-- TIE to the source, second part — the INVENTORY of package-level variables that could carry state from one connection
+    to another (slices, maps, pointers, channels, functions, interfaces, and structs containing them or a `sync` /
+    `atomic` field): exactly these read-only lookup tables plus the default cipher-suite preference list, none of which
+    any function assigns (`no_shared_writes`). A pool, cache, memo map or scratch buffer added at package level — however
+    it is synchronised — changes this list and breaks the obligation; whether it then makes connections interfere is what
+    the `conc` runs (each workload compared with a run alone in a fresh process) search for. -/
+theorem shared_state_inventory : Bmc.Gen.Facts.sharedStateVars =
+    ["bmc.defaultCipherSuites : []pkg/ipmi.CipherSuite",
+     "dcmi.dcmiSensorEntityIDs : []pkg/ipmi.EntityID",
+     "dcmi.ipmiSensorEntityIDs : []pkg/ipmi.EntityID",
+     "iana.enterpriseOrganisations : map[pkg/iana.Enterprise]string",
+     "ipmi.analogDataFormatDescriptions : map[pkg/ipmi.AnalogDataFormat]string",
+     "ipmi.analogDataFormatParsers : map[pkg/ipmi.AnalogDataFormat]pkg/ipmi.AnalogDataFormatParser",
+     "ipmi.completionCodeDescriptions : map[pkg/ipmi.CompletionCode]string",
+     "ipmi.entityIdDescriptions : map[pkg/ipmi.EntityID]string",
+     "ipmi.linearisationDescriptions : map[pkg/ipmi.Linearisation]string",
+     "ipmi.linearisationLinearisers : map[pkg/ipmi.Linearisation]pkg/ipmi.Lineariser",
+     "ipmi.operationLayerTypes : map[pkg/ipmi.Operation]github.com/google/gopacket.LayerType",
+     "ipmi.outputTypeDescriptions : map[pkg/ipmi.OutputType]string",
+     "ipmi.payloadLayerTypes : map[pkg/ipmi.PayloadDescriptor]github.com/google/gopacket.LayerType",
+     "ipmi.payloadTypeDescriptions : map[pkg/ipmi.PayloadType]string",
+     "ipmi.rateUnitDurations : map[pkg/ipmi.RateUnit]time.Duration",
+     "ipmi.recordTypeDescriptions : map[pkg/ipmi.RecordType]string",
+     "ipmi.recordTypeLayerTypes : map[pkg/ipmi.RecordType]github.com/google/gopacket.LayerType",
+     "ipmi.sensorDirectionDescriptions : map[pkg/ipmi.SensorDirection]string",
+     "ipmi.sensorTypeDescriptions : map[pkg/ipmi.SensorType]string",
+     "ipmi.sensorUnitSymbols : map[pkg/ipmi.SensorUnit]string",
+     "ipmi.statusCodeDescriptions : map[pkg/ipmi.StatusCode]string",
+     "ipmi.stringEncodingDecoders : map[pkg/ipmi.StringEncoding]pkg/ipmi.StringDecoder",
+     "ipmi.stringEncodingDescriptions : map[pkg/ipmi.StringEncoding]string"] := by decide
+
 example : project 1 (interleaved ⟨fun (s : Nat) (o : Nat) => (s + o, s)⟩ (fun _ => 0) [(1, 5), (2, 7), (1, 1), (2, 2)]).2 = [0, 5] := by
   decide
 
